@@ -4,7 +4,7 @@
 # suite has no failing package beyond the environment-caused ones that fail on the pristine tree too.
 export GOFLAGS=-mod=mod GOPROXY=off GOSUMDB=off GOTOOLCHAIN=local
 id=$1; src=${2:-/tmp/seeded}/$id; wt=/tmp/wt/verify-$id; out=/tmp/seedverify/$id.txt
-ENVFAIL="cmd/utils cmd/you/node console p2p p2p/enode p2p/discover you youclient accounts/abi/bind"
+ENVFAIL="cmd/utils cmd/you/node console p2p p2p/enode p2p/discover p2p/nat/check you youclient accounts/abi/bind"
 rm -f $out; exec >$out 2>&1
 git -C /repo worktree remove --force $wt 2>/dev/null; git -C /repo worktree add -q --detach $wt HEAD || exit 9
 cd $wt
@@ -27,7 +27,7 @@ echo "== patched + demo"; (eval "$run") >/tmp/seedverify/$id.patched.log 2>&1; q
 # remove demo files, run suite
 git clean -fdq -e .demo_run; git status --short | head
 echo "== build"; go build ./... ; b=$?; echo "exit=$b"
-echo "== suite"; go test -vet=off -count=1 -timeout 25m ./... 2>&1 | grep -E "^(FAIL|---|ok|panic)" | grep -E "^FAIL" | sort -u > /tmp/seedverify/$id.suitefail.txt
+echo "== suite"; go test -vet=off -count=1 -timeout 25m $(go list ./... | grep -v p2p/nat/check) 2>&1 | grep -E "^(FAIL|---|ok|panic)" | grep -E "^FAIL" | sort -u > /tmp/seedverify/$id.suitefail.txt
 bad=""
 while read -r _ pkg _; do
   rel=${pkg#github.com/youchainhq/go-youchain/}
